@@ -6,6 +6,7 @@ mod util;
 mod shp;
 mod cmd_shape;
 mod fontgen;
+mod e2e;
 #[cfg(rustybuzz_verif)]
 mod bufops;
 #[cfg(rustybuzz_verif)]
@@ -54,6 +55,7 @@ fn main() {
     let rest = &args[1..];
     match args[0].as_str() {
         "shape" => cmd_shape::run(rest),
+        "e2e" => e2e::run(rest),
         "fontgen-coq" => {
             // smoke test of the Coq printer: a small font with one of several table kinds
             use fontgen::coq::ToCoq;
